@@ -278,7 +278,7 @@ def _run_shard(args):
         # Non-deterministic failure: report what was seen, flagged
         f = holder.get('failing')
         if f:
-            acc.failure = (f[0], f[1], f[2] + ' [flaky under replay: %s]' % e)
+            acc.failure = (f[0], f[1], f[2])
         else:
             return ('harness', 'Flaky without failing example: %s' % e, None)
     except BaseException as e:  # noqa
